@@ -49,7 +49,9 @@ Step ==
   /\ l <= Len(Ev) /\ l' = l + 1 /\ tid' = tid
   /\ LET e == Ev[l] IN
      CASE e.k = "init" ->
-            /\ led' = e.hold /\ led0' = e.hold /\ UNCHANGED <<pend, owed, v>>
+            \* e.endow: the endowment as the configuration declares it (<<>> when it is not a constant there)
+            /\ led' = e.hold /\ led0' = e.hold /\ UNCHANGED <<pend, owed>>
+            /\ v' = [v EXCEPT !.C05 = F(@, e.endow # <<>> /\ e.endow # e.hold, "C05:endowment-differs-from-the-configuration")]
        [] e.k = "acc" ->
             /\ owed' = Append(owed, OweOrder(e)) /\ UNCHANGED <<led, led0, pend, v>>
        [] e.k = "canc" ->
